@@ -208,6 +208,16 @@ func c08States(ips []string, maxBusy int) [][]int {
 		if busy < maxBusy {
 			rec(i+1, append(cur, 1), busy+1)
 			rec(i+1, append(cur, 2), busy+1)
+			// 3 = reserved by an administrator whose labelled object galaxy-ipam has not been notified of yet (at most one)
+			has3 := false
+			for _, c := range cur {
+				if c == 3 {
+					has3 = true
+				}
+			}
+			if !has3 {
+				rec(i+1, append(cur, 3), busy+1)
+			}
 		}
 	}
 	rec(0, nil, 0)
@@ -261,6 +271,9 @@ func c08Case(r *caseResult, scen string, cfg world.Config, cfgName string, ips [
 				_ = preAllocate(w, ips[i], "sts_ns_other_other-0", "uo")
 			case 2:
 				_ = preAllocate(w, ips[i], key, string(p.UID))
+			case 3:
+				_ = w.Reserve(ips[i])
+				w.Pending = nil // the notification has not arrived
 			}
 		}
 		return w
@@ -312,6 +325,13 @@ func c08Case(r *caseResult, scen string, cfg world.Config, cfgName string, ips [
 	if len(r.samples) < 3 && r.evals%173 == 1 {
 		r.samples = append(r.samples, fmt.Sprintf("%s -> err=%v owned=%v", desc, err, ownedIPs(w, key)))
 	}
+	for _, v := range st {
+		if v == 3 {
+			// the creation of the reserved address fails by itself (AlreadyExists): that is the single failure of this case, no
+			// further fault is injected
+			return
+		}
+	}
 	for k := 1; k <= ncalls; k++ {
 		w := build()
 		p := w.Pods[pod.Key()]
@@ -339,6 +359,8 @@ func stateStr(ips []string, st []int) string {
 			b = append(b, ips[i]+"=other")
 		} else if s == 2 {
 			b = append(b, ips[i]+"=own")
+		} else if s == 3 {
+			b = append(b, ips[i]+"=reserved-not-yet-seen")
 		}
 	}
 	return "{" + strings.Join(b, " ") + "}"
@@ -347,6 +369,13 @@ func stateStr(ips []string, st []int) string {
 func c08Check(r *caseResult, scen string, cfg world.Config, desc, mode string, w *world.World, pod world.PodSpec, key string, req []int, node string, before []string, err error) {
 	class := fmt.Sprintf("k=%d", len(req))
 	after := ownedIPs(w, key)
+	// an administrator's reservation is never taken over or removed, whether the bind succeeds or fails
+	st := storeByIP(w)
+	for ip := range w.AdminReserved {
+		if so, ok := st[ip]; !ok || !so.Reserved || so.Key != "admin-reserved" {
+			r.violate("C08", scen, class, "administrator-reservation-removed-or-taken-over", mode, fmt.Sprintf("%s: %s was reserved by an administrator, the store now has {%v present=%v}", desc, ip, so, ok), []string{desc})
+		}
+	}
 	if err != nil {
 		// all or nothing: the IPs under the pod's key are what they were before the call
 		if fmt.Sprint(after) != fmt.Sprint(before) {
